@@ -15,6 +15,39 @@ BUILDERS = {
 EXTRA_STAGES = {}
 
 PROPS = {
+    "C02": {
+        "stages": [{"kind": "cases", "name": "publish", "driver": "C02", "n": {"quick": 1, "thorough": 1}}],
+        "exhaustive": True,
+        "rule": "EXHAUSTIVE enumeration of the abstract shape table through real POSTs: publish claim in {key absent, null, [], literal hit, literal miss, "
+                "template hit, '*' first / middle / last, no token, bad signature} x topic lists of length 1-3 over {allowed, forbidden} in every position "
+                "x private {absent, present with value on / empty / 0} x compat {off, 7} x body {well-formed, no topic, bad retry, retry overflow, wrong "
+                "content type, unparsable (these five with 1-topic lists)} x {local, bolt}; after every request a sentinel publish separates what a witness "
+                "subscriber (every topic, every right) received because of it, and on bolt the ids appended to the history are read back. "
+                "non-trivial = well-formed body with a verifiable token",
+        "trusted": ["net/http form decoding (the form the model sees is ParseForm's result on a copy of the request)", "JWT verification (C03): tokens are "
+                    "known-valid or known-invalid by construction", "uritemplate oracle"],
+        "assumptions": ["a publisher key is configured (the hub cannot start without one)"],
+    },
+    "C04": {
+        "stages": [{"kind": "cases", "name": "carriers", "driver": "C04", "n": {"quick": 1, "thorough": 1}}],
+        "exhaustive": True,
+        "rule": "EXHAUSTIVE product {absent, valid, invalid signature, malformed, duplicated}^3 over the Authorization header, the authorization query "
+                "parameter and the cookie (each valid credential carries different rights, so the effective identity is observable) x endpoint {publish POST, "
+                "subscribe GET, subscription API GET} x anonymous {on, off} x cookie name {default, custom}; plus, for a cookie alone on a POST, Origin "
+                "{absent, allowed, not allowed} x Referer {absent, allowed, not allowed, unparsable} x publish origins {none, list, '*'} x cookie {valid, invalid}. "
+                "Observed per case: three probes (publish topics / private deliveries / subscription URLs). non-trivial = at least two carriers present, or the CSRF rule in play",
+        "trusted": ["net/http header, cookie and query parsing; url.Parse for the Referer (oracle table computed with url.Parse directly)", "JWT verification (C03)"],
+        "assumptions": [],
+    },
+    "C08": {
+        "stages": [{"kind": "cases", "name": "negotiation", "driver": "C08", "n": {"quick": 600, "thorough": 8000}}],
+        "rule": "exhaustive carriers {absent, empty, X, Y}^3 (header, lastEventID, legacy Last-Event-ID) x compat {off, 7} x {local, bolt} on a fixed history, "
+                "then generated histories (0-7 ids over {a,b,c,d,'earliest'} with duplicates, retention size in {0,2,3} truncating them) x requested id in the "
+                "alphabet + {unknown, earliest} via a random carrier; observed: Last-Event-ID response header and the ids replayed before a sentinel. "
+                "non-trivial = an id was requested from a non-empty persistent history",
+        "trusted": ["net/http header/query parsing", "bbolt cursor order"],
+        "assumptions": ["every stored update matches the subscriber (topic *) and nothing is published concurrently: C07 covers the rest"],
+    },
     "C05": {
         "stages": [{"kind": "cases", "name": "index", "driver": "C05", "n": {"quick": 1500, "thorough": 20000}}],
         "rule": "operation histories (4-30 ops: add / remove / dispatch) against the real SubscriberList (index cache of 1, 2, 3 or 100000 memos; "
